@@ -27,17 +27,26 @@ UNKNOWN_CODES = [c for c in range(256) if c not in NPAR]
 
 @contextlib.contextmanager
 def frozen_time():
-    """replace `time` in active_surface/__init__.py and usd.py by a frozen clock; sleep is a no-op"""
+    """replace `time` in active_surface/__init__.py and usd.py by a frozen clock; sleep is a no-op.
+    `Thread` of the System module is replaced by a subclass that remembers its `args`, so that the
+    harness knows which list of units the positioning loop really iterates."""
+    import threading
     import simulators.active_surface as A
     import simulators.active_surface.usd as Um
     fake = types.SimpleNamespace(time=lambda: 1000.0, sleep=lambda s: None)
-    saved = (A.time, Um.time)
+
+    class RecThread(threading.Thread):
+        def __init__(self, *a, **k):
+            self._asl_args = tuple(k.get('args') or ())
+            super().__init__(*a, **k)
+    saved = (A.time, Um.time, A.Thread)
     A.time = fake
     Um.time = fake
+    A.Thread = RecThread
     try:
         yield
     finally:
-        A.time, Um.time = saved
+        A.time, Um.time, A.Thread = saved
 
 
 def make_line(lo, hi):
@@ -47,7 +56,20 @@ def make_line(lo, hi):
     s = System(min_usd_index=lo, max_usd_index=hi)
     s.stop.value = True
     s.positioning_thread.join()
+    # the units the positioning loop was given (it calls calc_position on each of them)
+    lst = None
+    for a in getattr(s.positioning_thread, '_asl_args', ()):
+        if isinstance(a, list):
+            lst = a
+            break
+    s._asl_loop_units = lst if lst is not None else s.drivers
     return s
+
+
+def tick(system, elapsed):
+    """one iteration of System._positioning on the list the thread was started with"""
+    for u in system._asl_loop_units:
+        u.calc_position(elapsed)
 
 
 _spy_classes = {}
@@ -82,16 +104,30 @@ def spy_class():
 
 def spy_on(system):
     cls = spy_class()
+    system._asl_spied = list(system.drivers)
     for u in system.drivers:
         u.__class__ = cls
         u._spy = []
+
+
+def logs_of(system):
+    """call logs of the units `system.drivers` holds NOW (a unit the simulator created after
+    spy_on has no log: [])"""
+    return [list(getattr(u, '_spy', [])) for u in system.drivers]
+
+
+def rebound(system):
+    """True when the simulator replaced a spied unit / the driver list by other objects"""
+    sp = getattr(system, '_asl_spied', None)
+    return sp is not None and (len(sp) != len(system.drivers)
+                               or any(a is not b for a, b in zip(sp, system.drivers)))
 
 
 def snapshot(u):
     """every attribute of one USD (queue by content), hashable/comparable"""
     out = {}
     for k, v in vars(u).items():
-        if k == '_spy':
+        if k.startswith('_spy') or k.startswith('_asl'):
             continue
         if k == 'position_queue':
             v = tuple(v.queue)
@@ -356,10 +392,14 @@ def run_history(lo, hi, pokes, bs):
         apply_pokes(s, pokes)
         spy_on(s)
         dm0 = [u.delay_multiplier for u in s.drivers]
+        spied = list(s.drivers)
         outs = feed(s, bs)
         fin = fstate_of(s)
         units = []
-        for j, u in enumerate(s.drivers):
+        # calls are those received by the units that were on the line when the history started
+        # (if the simulator rebinds the list, the calls the model expects are simply missing:
+        # a correspondence mismatch, not a crash)
+        for j, u in enumerate(spied):
             for c, a, r, dm in u._spy:
                 if isinstance(r, tuple) and len(r) == 2 and r[0] == 'raise':
                     raise UsdRaised(r[1])
